@@ -11,7 +11,7 @@ use crate::exch::{ExchCfg, Gate, Menu, ServerMsg};
 use crate::exch_run::{replay_exchange, run_exchanges};
 use crate::gen::*;
 
-pub const RULE: &str = "requests {POST, PUT, PATCH, GET with send-body-despite-method} x {HTTP/1.0, 1.1} x {Content-Length: 3, chunked} (POST / PUT / GET-despite also with Content-Length: 0), all with Expect: 100-continue (once as the second of two Expect field lines), plus flows obtained by following a 302 / 307 redirect that inherit the Expect header and are converted with send-body-despite-method; server: bare interim 100 with reason {Continue, empty, none, 200-byte phrase} in HTTP/1.0 and 1.1 followed by the final response after the body, or a refusal = final head with status {101,102,103,199,200,204,205,300,302,403,417,500} bare / with 1 / with 2 fields (200 and 403 also with Connection: keep-alive and a 320-byte field line, and with an empty-valued field first) arriving instead of the 100, or a silent server; per exchange the COMPLETE graph with 1-byte arrivals, try_read_100 at every window (while can_keep_await_100), give-up at EVERY prefix, then both later paths (body then response incl. late 100, or response directly) run to Cleanup. plus interleaving: all 25 ordered pairs of five handshakes (two bare refusals, a refusal with fields, a 100 in time, a silent server) driven alternately on one thread. distinct = distinct (exchange, final observation) pairs (several per exchange are legitimate here: give-up before a refusal sends the body)";
+pub const RULE: &str = "requests {POST, PUT, PATCH, GET with send-body-despite-method} x {HTTP/1.0, 1.1} x {Content-Length: 3, chunked} (POST / PUT / GET-despite also with Content-Length: 0), all with Expect: 100-continue (once as the second of two Expect field lines), plus flows obtained by following a 302 / 307 redirect that inherit the Expect header and are converted with send-body-despite-method; server: bare interim 100 with reason {Continue, empty, none, 200-byte phrase} in HTTP/1.0 and 1.1 followed by the final response after the body, or a refusal = final head with status {101,102,103,199,200,204,205,300,302,403,417,500} bare / with 1 / with 2 fields (200 and 403 also with Connection: keep-alive and a 320-byte field line, with an empty-valued field first, and with Connection: close in front of a close-delimited body) arriving instead of the 100, or a silent server; per exchange the COMPLETE graph with 1-byte arrivals, try_read_100 at every window (while can_keep_await_100), give-up at EVERY prefix, then both later paths (body then response incl. late 100, or response directly) run to Cleanup. plus interleaving: all 25 ordered pairs of five handshakes (two bare refusals, a refusal with fields, a 100 in time, a silent server) driven alternately on one thread. distinct = distinct (exchange, final observation) pairs (several per exchange are legitimate here: give-up before a refusal sends the body)";
 
 fn long_phrase() -> String {
     let mut s = String::new();
@@ -38,6 +38,13 @@ pub fn build(tier: Tier) -> Vec<Arc<ExchCfg>> {
         let mut r = req("POST", "1.1", ReqFraming::Length(3), 3, true, false, false);
         r.cfg.orig.insert(0, ("expect".into(), b"x-audit".to_vec()));
         r.label.push_str(" two-expect-lines");
+        reqs.push(r);
+    }
+    // every request-side close condition at once, Connection: close also added by the caller in Prepare
+    {
+        let mut r = req("POST", "1.0", ReqFraming::Length(3), 3, true, true, false);
+        r.cfg = r.cfg.added("connection", "close");
+        r.label.push_str(" connection-close-added-too");
         reqs.push(r);
     }
     // an announced body of length zero still goes through the handshake
@@ -86,12 +93,20 @@ pub fn build(tier: Tier) -> Vec<Arc<ExchCfg>> {
         scripts.push((server(final_ok.clone(), None, Gate::AfterBody), next.clone()));
         // refusals
         for status in [101u16, 102, 103, 199, 200, 204, 205, 300, 302, 403, 417, 500] {
-            for nf in 0..=4usize {
+            for nf in 0..=5usize {
                 for ver in ["1.0", "1.1"] {
                     if ver == "1.0" && !(status == 403 || status == 200) {
                         continue;
                     }
                     if nf >= 3 && !(status == 403 || status == 200) {
+                        continue;
+                    }
+                    if nf == 5 {
+                        // Connection: close and no framing header: every response-side close condition as well
+                        let m = RespMsg::new(ver, status, "Nope").field("Connection", "close");
+                        let mut m = m;
+                        m.body = crate::driver::RespBody::Raw(b"sorry".to_vec());
+                        scripts.push((vec![ServerMsg { msg: m, gate: Gate::AfterHead }], vec![]));
                         continue;
                     }
                     let mut m = RespMsg::new(ver, status, "Nope");
